@@ -1,5 +1,6 @@
 (* C20 -- property theorems only; each closed by `exact` and followed by Print Assumptions. *)
 Require Import SF.Prelude SF.RelJoin SF.RelShift SF.RelStack SF.RelPivot.
+Require Import Gen.Gen_c20 Proofs.RelJoinDefaults.
 Require Import Proofs.RelJoinSpec Proofs.RelJoinRefine Proofs.RelJoinSingle Proofs.RelShiftFacts Proofs.RelStackFacts Proofs.RelStackRefine Proofs.RelPivotFacts.
 
 (* ===================================================================== joins *)
@@ -62,6 +63,30 @@ Theorem C20_join_composite_refines : forall (L K A : Type) (leqb : L -> L -> boo
   = Ok (S_frame keqb jt cifv fill lt rt lcols rcols Lt Rt).
 Proof. exact (@join_composite_refines). Qed.
 Print Assumptions C20_join_composite_refines.
+
+(* about the text REGENERATED from frame.py on every run: a join called without composite_index takes the
+   composite path (whatever entry point), so the default join is the relational join *)
+Theorem C20_join_default_refines : forall (L K A : Type) (leqb : L -> L -> bool) (keqb : K -> K -> bool),
+  (forall a b, leqb a b = true <-> a = b) ->
+  forall name b, In (name, b) gen_join_composite_default ->
+  forall jt cifv (fill : A) lt rt lcols rcols (Lt Rt : list (trow L K A)),
+  NoDup (map lab Lt) -> NoDup (map lab Rt) ->
+  Forall (fun l => length (cells l) = length lcols) Lt ->
+  Forall (fun r => length (cells r) = length rcols) Rt ->
+  ~ In cifv (map lab Lt) -> ~ In cifv (map lab Rt) ->
+  nodupb String.eqb (out_names lt rt lcols rcols) = true ->
+  M_join leqb keqb jt b cifv fill lt rt lcols rcols Lt Rt
+  = Ok (S_frame keqb jt cifv fill lt rt lcols rcols Lt Rt).
+Proof. exact (@join_default_refines). Qed.
+Print Assumptions C20_join_default_refines.
+
+Theorem C20_join_entry_points :
+  map fst gen_join_composite_default = ["_join"; "join_inner"; "join_left"; "join_right"; "join_outer"]%string /\
+  gen_join_dispatch = [("join_inner", "INNER"); ("join_left", "LEFT"); ("join_right", "RIGHT"); ("join_outer", "OUTER")]%string /\
+  forallb (fun p => snd p) gen_join_cifv_default_is_none = true /\
+  forallb (fun p => String.eqb (fst (snd p)) "{}" && String.eqb (snd (snd p)) "{}") gen_join_templates_default = true.
+Proof. exact join_entry_points. Qed.
+Print Assumptions C20_join_entry_points.
 
 (* composite_index=False on a one-to-one relation: the inner join is the relational definition (left
    labels, left order) with no further condition ... *)
@@ -196,9 +221,9 @@ Print Assumptions C20_stack_refines.
 
 Theorem C20_unstack_refines : forall (G T C A : Type) (geqb : G -> G -> bool) (teqb : T -> T -> bool) (ceqb : C -> C -> bool),
   (forall a b, geqb a b = true <-> a = b) -> (forall a b, teqb a b = true <-> a = b) -> (forall a b, ceqb a b = true <-> a = b) ->
-  forall fill castfill (f : sframe A (G * T) C),
-  NoDup (sf_rows f) -> NoDup (sf_cols f) -> fill_castable fill castfill ->
-  M_unstack geqb teqb fill castfill f = Ok (S_unstack geqb teqb ceqb fill f).
+  forall cast_src fill castfill (f : sframe A (G * T) C),
+  NoDup (sf_rows f) -> NoDup (sf_cols f) -> (cast_src = true -> fill_castable fill castfill) ->
+  M_unstack geqb teqb cast_src fill castfill f = Ok (S_unstack geqb teqb ceqb fill f).
 Proof. exact (@unstack_refines). Qed.
 Print Assumptions C20_unstack_refines.
 
